@@ -17,6 +17,7 @@ from ..util import (
     check_numerical_range,
     function_library,
     invert_matrix,
+    is_diagonal,
 )
 from .container import XYContainer
 from .cost import STRING_TO_COST_FUNCTION, XYCostFunction_Chi2
@@ -125,6 +126,10 @@ class XYFit(FitBase):
         self._nexus.add_dependency("y_model", depends_on=("x_model", "parameter_values"))
 
         self._nexus.add_dependency("x_model", depends_on=("x_data",))
+
+    def _uncertainties_are_uncorrelated(self):
+        # the projected total matrix is diagonal wherever the model slope vanishes, e.g. at the starting values: look at the matrices of the two axes
+        return is_diagonal(self.x_total_cov_mat) and is_diagonal(self.y_total_cov_mat)
 
     def _set_new_data(self, new_data):
         if isinstance(new_data, self.CONTAINER_TYPE):
